@@ -351,7 +351,7 @@ fn flushrace_worker(prop: &str, seed: u64, wid: u64, cases: u32, out: &str, know
     let mut failure = serde_json::Value::Null;
     if let Err(TestError::Fail(reason, c)) = &res {
         let fails: Vec<String> = flushrace::run(c).unwrap_or_default().into_iter().filter(|m| keep(m)).collect();
-        let sig_of = |f: &String| if f.starts_with("BLOCKED-FLUSH") { "blocked:flush-does-not-return".to_string() } else { sig.clone() };
+        let sig_of = |f: &String| if f.starts_with("BLOCKED-FLUSH") { "blocked:flush-does-not-return".to_string() } else if f.contains("started together") { "simultaneous-start:not-delivered-by-flush".to_string() } else { sig.clone() };
         failure = json!({"signature": fails.first().map(sig_of).unwrap_or(reason.to_string()), "program": c, "violations": fails.iter().map(|f| json!({"sig": sig_of(f), "msg": f})).collect::<Vec<_>>()});
     }
     let mut nt: Vec<u64> = s.1.iter().cloned().collect();
@@ -361,7 +361,7 @@ fn flushrace_worker(prop: &str, seed: u64, wid: u64, cases: u32, out: &str, know
         "evaluations": s.0, "nontrivial_hashes": nt.iter().map(|h| format!("{:016x}", h)).collect::<Vec<_>>(),
         "labels": {"overlapping_flush_case": s.0, "overlap_setup_failed": s.4}, "excluded": {}, "known_hits": {}, "samples": s.2,
         "records_delivered": 0, "ops_executed": 0, "ops_skipped": 0, "failure": failure,
-        "rule": "overlapping flush() calls: the reporter parks the first flush's cycle inside report(); meanwhile 1-3 threads finish generated spans (roots, handed-off children, local scopes) and call flush(); the gate opens a generated delay after they entered; oracle: everything a thread finished before its flush() call is reported when that call returns; every case is non-trivial (the overlap is constructed); distinct = hash of the case",
+        "rule": "overlapping flush() calls: the reporter parks the first flush's cycle inside report(); meanwhile 1-3 threads finish generated spans (roots, handed-off children, local scopes) and call flush(); the gate opens a generated delay after they entered; oracle: everything a thread finished before its flush() call is reported when that call returns; sub-cases: a thread with a completely full queue that calls flush() itself, and 2-32 brand-new threads released at the same instant (spin flag) whose spans a flush() called after they all finished must report; every case is non-trivial (the overlap is constructed); distinct = hash of the case",
         "wall_s": start.elapsed().as_secs_f64(),
     });
     std::fs::File::create(out).unwrap().write_all(serde_json::to_string(&res).unwrap().as_bytes()).unwrap();
@@ -547,7 +547,7 @@ fn replay(args: &[String]) -> i32 {
                 break;
             }
         }
-        println!("{}", serde_json::to_string_pretty(&json!({"violations": fails.iter().map(|f| json!({"sig": if f.starts_with("BLOCKED-FLUSH") { "blocked:flush-does-not-return" } else { sig }, "msg": f})).collect::<Vec<_>>(), "narrative": []})).unwrap());
+        println!("{}", serde_json::to_string_pretty(&json!({"violations": fails.iter().map(|f| json!({"sig": if f.starts_with("BLOCKED-FLUSH") { "blocked:flush-does-not-return" } else if f.contains("started together") { "simultaneous-start:not-delivered-by-flush" } else { sig }, "msg": f})).collect::<Vec<_>>(), "narrative": []})).unwrap());
         return if fails.is_empty() { 0 } else { 1 };
     }
     if v["variant"].as_str().map_or(false, |s| s.starts_with("bgdeliver")) {
